@@ -10,12 +10,12 @@ axes: N samples, C components/clusters, D features, F = C*D flattened, K test it
 
 ATTRS = {
     # ---- GMMMachine ------------------------------------------------------------------------------
-    "GMMMachine.means": "U [C,D]", "GMMMachine._means": "U [C,D]",
-    "GMMMachine.variances": "U2 [C,D]", "GMMMachine._variances": "U2 [C,D]",
+    "GMMMachine.means": "U eqv [C,D]", "GMMMachine._means": "U eqv [C,D]",
+    "GMMMachine.variances": "U2 inv [C,D]", "GMMMachine._variances": "U2 inv [C,D]",
     "GMMMachine.variance_thresholds": "*", "GMMMachine._variance_thresholds": "*",
-    "GMMMachine.weights": "1 [C]", "GMMMachine._weights": "1 [C]",
-    "GMMMachine.log_weights": "LOG [C]", "GMMMachine._log_weights": "LOG [C]",
-    "GMMMachine.g_norms": "LOG U2d c2pi [C]", "GMMMachine._g_norms": "LOG U2d c2pi [C]",
+    "GMMMachine.weights": "1 inv [C]", "GMMMachine._weights": "1 inv [C]",
+    "GMMMachine.log_weights": "LOG inv [C]", "GMMMachine._log_weights": "LOG inv [C]",
+    "GMMMachine.g_norms": "LOG U2d c2pi inv [C]", "GMMMachine._g_norms": "LOG U2d c2pi inv [C]",
     "GMMMachine.n_gaussians": "count:C", "GMMMachine.ubm": "obj:GMMMachine",
     "GMMMachine.mean_var_update_threshold": "*", "GMMMachine.map_alpha": "*", "GMMMachine.map_relevance_factor": "*",
     "GMMMachine.update_means": "?", "GMMMachine.update_variances": "?", "GMMMachine.update_weights": "?", "GMMMachine.trainer": "?",
@@ -31,7 +31,7 @@ ATTRS = {
     "IVectorMachine.T": "U [C,D,T]", "IVectorMachine.sigma": "U2 [C,D]", "IVectorMachine.ubm": "obj:GMMMachine",
     "IVectorMachine.variance_floor": "*", "IVectorMachine.dim_c": "count:C", "IVectorMachine.dim_d": "count:D", "IVectorMachine.dim_t": "count:T",
     "IVectorMachine.update_sigma": "?", "IVectorMachine.max_iterations": "*",
-    "IVectorStats.nij_sigma_wij2": "1 [C,T,T]", "IVectorStats.fnorm_sigma_wij": "U [C,D,T]", "IVectorStats.snormij": "U2 [C,D]", "IVectorStats.nij": "1 [C]",
+    "IVectorStats.nij_sigma_wij2": "S [C,T,T]", "IVectorStats.fnorm_sigma_wij": "U S [C,D,T]", "IVectorStats.snormij": "U2 S [C,D]", "IVectorStats.nij": "S [C]",
     "IVectorStats.dim_c": "count:C", "IVectorStats.dim_d": "count:D", "IVectorStats.dim_t": "count:T",
     # ---- factor analysis -------------------------------------------------------------------------------
     "FactorAnalysisBase._U": "U [F,R]", "FactorAnalysisBase._V": "U [F,R]", "FactorAnalysisBase._D": "U [F]",
@@ -43,8 +43,8 @@ ATTRS = {
 }
 
 RETURNS = {
-    "gmm:log_weighted_likelihood": "LOG U-d -halfc2pi [C,N]",
-    "gmm:log_likelihood": "LOG U-d -halfc2pi [N]",
+    "gmm:log_weighted_likelihood": "LOG U-d -halfc2pi inv [C,N]",
+    "gmm:log_likelihood": "LOG U-d -halfc2pi inv [N]",
     "gmm:reduce_loglikelihood": "LOG U-d -halfc2pi [N]",
     "kmeans:get_centroids_distance": "U2 inv [C,N]",
     "kmeans:e_step": "tuple:S [C]|U S [C,D]|U2 S inv []",
